@@ -4,6 +4,7 @@ package main
 
 import (
 	"bufio"
+	"context"
 	"fmt"
 	"io"
 	"math/big"
@@ -198,6 +199,98 @@ func (s *Solver) OneShotWith(kind SolverKind, assume []string, wantModel bool, v
 }
 
 var dumpN int
+
+// OneShotRace runs the same non-incremental query on z3 5.1 and z3 4.8.12 side by side and takes
+// the first definite answer (sat/unsat); the other process is killed.  Used for obligations the
+// incremental solver left undecided, so that one hard query costs the time of the faster
+// search instead of the sum of all budgets.
+func (s *Solver) OneShotRace(assume []string, wantModel bool, vars []string, timeoutMs int) (SatResult, map[string]string, string) {
+	s.NOneShot++
+	var sb strings.Builder
+	sb.WriteString("(set-option :produce-models true)\n")
+	sb.WriteString(s.pathLog.String())
+	for _, a := range assume {
+		sb.WriteString("(assert " + a + ")\n")
+	}
+	sb.WriteString("(check-sat)\n")
+	if wantModel && len(vars) > 0 {
+		for i := 0; i < len(vars); i += 50 {
+			j := i + 50
+			if j > len(vars) {
+				j = len(vars)
+			}
+			sb.WriteString("(get-value (" + strings.Join(vars[i:j], " ") + "))\n")
+		}
+	}
+	script := sb.String()
+	type ans struct {
+		r     SatResult
+		model map[string]string
+		errs  string
+	}
+	bins := []string{"z3-new", "z3"}
+	ctx, cancel := context.WithCancel(context.Background())
+	defer cancel()
+	ch := make(chan ans, len(bins))
+	t0 := time.Now()
+	for _, bin := range bins {
+		go func(bin string) {
+			cmd := exec.CommandContext(ctx, bin, "-in", "-smt2", fmt.Sprintf("-t:%d", timeoutMs))
+			cmd.Stdin = strings.NewReader(script)
+			out, _ := cmd.CombinedOutput()
+			txt := string(out)
+			first, rest := txt, ""
+			if i := strings.Index(txt, "\n"); i >= 0 {
+				first, rest = txt[:i], txt[i+1:]
+			}
+			first = strings.TrimSpace(first)
+			switch first {
+			case "unsat":
+				ch <- ans{RUnsat, nil, ""}
+			case "sat":
+				model := map[string]string{}
+				if wantModel {
+					parseGetValue(rest, model)
+				}
+				ch <- ans{RSat, model, ""}
+			default:
+				if strings.HasPrefix(first, "(error") && ctx.Err() == nil {
+					ch <- ans{RUnknown, nil, first}
+				} else {
+					ch <- ans{RUnknown, nil, ""}
+				}
+			}
+		}(bin)
+	}
+	res := ans{RUnknown, nil, ""}
+	for range bins {
+		a := <-ch
+		if a.r != RUnknown {
+			res = a
+			break
+		}
+		if a.errs != "" && res.errs == "" {
+			res.errs = a.errs
+		}
+	}
+	cancel()
+	s.Time += time.Since(t0)
+	switch res.r {
+	case RUnsat:
+		s.NUnsat++
+		res.errs = ""
+	case RSat:
+		s.NSat++
+		res.errs = ""
+	default:
+		s.NUnknown++
+		if d := os.Getenv("VERIF_DUMP_UNKNOWN"); d != "" {
+			dumpN++
+			os.WriteFile(fmt.Sprintf("%s/unk-%d-%d.smt2", d, os.Getpid(), dumpN), []byte(script), 0644)
+		}
+	}
+	return res.r, res.model, res.errs
+}
 
 type SatResult int
 
